@@ -5,6 +5,7 @@ import (
 	stdjson "encoding/json"
 	"errors"
 	"fmt"
+	jschema "github.com/jsightapi/jsight-schema-go-library"
 	"github.com/jsightapi/jsight-schema-go-library/fs"
 	"strconv"
 	"time"
@@ -69,6 +70,48 @@ func libCheckShared(input string, trailing bool) (err error) {
 	return json.FromFile(f).Check()
 }
 
+// libCheckAfter: the same check on a document that has a history: k lexemes were read from it first
+// (k = -1: Len was called first; k = -2: a first Check). The verdict is a function of the bytes and the
+// option only.
+func libCheckAfter(input string, trailing bool, k int) (err error) {
+	defer func() {
+		if r := recover(); r != nil {
+			err = fmt.Errorf("PANIC: %v", r)
+		}
+	}()
+	var d jschema.Document
+	if trailing {
+		d = json.New("doc", []byte(input), json.AllowTrailingNonSpaceCharacters())
+	} else {
+		d = json.New("doc", []byte(input))
+	}
+	switch {
+	case k == -1:
+		_, _ = d.Len()
+	case k == -2:
+		_ = d.Check()
+	default:
+		for i := 0; i < k; i++ {
+			if _, e := d.NextLexeme(); e != nil {
+				break
+			}
+		}
+	}
+	return d.Check()
+}
+
+var checkHistories = []int{-2, -1, 1, 2, 3, 5}
+
+func historyName(k int) string {
+	switch k {
+	case -1:
+		return "Len() was called"
+	case -2:
+		return "a first Check() was called"
+	}
+	return fmt.Sprintf("%d lexeme(s) were read with NextLexeme", k)
+}
+
 func refVerdict(input string, trailing bool) jsonpda.Verdict {
 	p := jsonpda.New()
 	for i := 0; i < len(input); i++ {
@@ -98,6 +141,13 @@ func compare(c *ev.Ctx, input string, trailing bool, origin string) bool {
 	if serr := libCheckShared(input, trailing); (serr == nil) != libAcc {
 		c.Violate(fmt.Sprintf("%s;shared-file;%s", modeName(trailing), strconv.Quote(input)),
 			fmt.Sprintf("Document.Check (%s) on %q: %v for a fresh document, but %v for a document made with FromFile on a file that a document of the other mode has just checked [%s]", modeName(trailing), input, err, serr, origin), caseT{modeName(trailing), input})
+	}
+	for _, k := range checkHistories {
+		if herr := libCheckAfter(input, trailing, k); (herr == nil) != libAcc {
+			c.Violate(fmt.Sprintf("%s;history %d;%s", modeName(trailing), k, strconv.Quote(input)),
+				fmt.Sprintf("Document.Check (%s) on %q: %v for a fresh document, but %v on a document from which %s before [%s]", modeName(trailing), input, err, herr, historyName(k), origin), caseT{modeName(trailing), input})
+			break
+		}
 	}
 	rv := refVerdict(input, trailing)
 	if err != nil && isPanic(err) {
